@@ -330,8 +330,32 @@ def run(ctx):
             ctx.undecided += 1
             continue
         m = meta[k]
-        ctx.violation(clause, {"stage": "minor", "clause": clause, "gene": m["gene"].split("/")[0]}, m,
-                      f"case {k} ({m['mode']}) called={m['called']} planted={m['bag']} reported={m['result']}")
+        fp = {"stage": "minor", "clause": clause, "gene": m["gene"].split("/")[0]}
+        if clause in ("Optimal", "NoneReportedButAdmissibleExists"):
+            fp["cbc_objective_worse_than_scip_on_same_model"] = _backend_flag(m)  # attribution only (harness/backend.py)
+        ctx.violation(clause, fp, m, f"case {k} ({m['mode']}) called={m['called']} planted={m['bag']} reported={m['result']}")
+
+
+def _backend_flag(m):
+    """Re-run the recorded case with every CBC solve exported; True iff SCIP beats an objective CBC called optimal."""
+    from .. import backend
+
+    try:
+        gname, genome = m["gene"].split("/")
+        g = genes.load(gname, genome)
+        table = {int(p): v for p, v in m["table"].items()}
+        low = {int(p): {o: tuple(x) for o, x in v.items()} for p, v in (m.get("low") or {}).items()} or None
+        indels = {(int(a), b): (c, d) for a, b, c, d in m.get("indels", [])} or None
+        sam = evidence.FakeSam({k: {int(p_): o_ for p_, o_ in v.items()} for k, v in m["phases"].items()}) if m.get("phases") else None
+        cov = evidence.make_coverage(g, _profile(**m["params"]), table, low, indels, None, sam)
+        msol = make_major_sol(g, m["struct"], m["called"], m.get("novel", []))
+        recs = []
+        with backend.watch(recs), aldyenv.quiet_stderr():
+            run_minor(g, cov, msol)
+        with aldyenv.quiet_stderr():
+            return bool(backend.worse_than_scip(recs))
+    except Exception:  # noqa: BLE001 - attribution must never turn a violation into a machinery failure
+        return False
 
 
 def replay(path):
